@@ -705,3 +705,43 @@ func checkBase(l *mc.Local, kind string, w, h int) {
 		l.Distinct("nontrivial", fmt.Sprintf("base/%s/%dx%d", kind, w, h))
 	}
 }
+
+// ------------------------------------------------------------------ argument product of Crop
+
+// allCrops applies, to the fresh source and to the views reached by a few short histories, a crop
+// with EVERY argument combination: left in -1..w, top in -1..h, width in -1..w+2, height in
+// -1..h+2 (w, h the size of the view), each on a fresh real object; in-range crops must agree
+// with the model pixel for pixel, every other rectangle must be refused.
+func allCrops(l *mc.Local, kind string, w, h int) {
+	s := &stepper{l: l, kind: kind, w: w, h: h}
+	if _, _, msg := initial(kind, w, h); msg != "" {
+		return // reported by the history search
+	}
+	c := func(l, t, cw, ch int) vop { return vop{"crop", l, t, cw, ch} }
+	prefixes := [][]vop{nil, {{Op: "rotate"}}, {{Op: "invert"}}, {c(1, 0, w-1, h)}, {c(0, 1, w, h-1)}, {{Op: "rotate"}, {Op: "rotate"}}, {c(1, 1, w-2, h-2), {Op: "rotate"}}}
+	for _, hist := range prefixes {
+		_, mcur := s.replay(hist)
+		if mcur == nil {
+			continue // the prefix is not applicable to this source kind / size
+		}
+		vw, vh := mcur.w, mcur.h
+		for left := -1; left <= vw; left++ {
+			for top := -1; top <= vh; top++ {
+				for cw := -1; cw <= vw+2; cw++ {
+					for ch := -1; ch <= vh+2; ch++ {
+						src, m := s.replay(hist)
+						if src == nil {
+							panic("harness: history does not replay")
+						}
+						s.hist = hist
+						l.Beat("")
+						s.step(src, m, c(left, top, cw, ch), false)
+						l.Count("transitions", 1)
+						l.Count("evaluations", 1)
+					}
+				}
+			}
+		}
+		l.Distinct("nontrivial", fmt.Sprintf("allcrops/%s/%dx%d/%d", kind, w, h, len(hist)))
+	}
+}
